@@ -645,3 +645,8 @@ package calendar
 //@     midxRange(s.year, sjdn(s))
 //@     monthLocateBack(s.year, midx(s.year, sjdn(s)))
 //@     assert(lunarExists(l.year, l.month, l.day))
+
+//@ # ================================================================ C08: every exported zero-argument accessor is total
+//@ # Safety-only contracts: under the receiver's type invariant the method returns without panicking - every index is
+//@ # in range, no nil dereference, no failing type assertion, no division by zero, every callee precondition holds.
+//@ sweep Solar Lunar LunarYear LunarMonth LunarTime EightChar Yun DaYun LiuNian LiuYue XiaoYun NineStar Tao Foto SolarWeek SolarMonth SolarSeason SolarHalfYear SolarYear JieQi Fu ShuJiu TaoFestival FotoFestival [C08]
